@@ -6,9 +6,11 @@ STATEFUL = True
 READY = True
 THEOREMS = ["C03.recCheck_iff", "C03.accepted_no_cycle", "C03.user_cycle_iff", "C03.accepted_user_acyclic",
             "C03.rejected_user_cyclic", "C03.ctor_recursive_iff", "C03.stack_bound", "C03.stack_bound_parse",
-            "C03.run_terminates", "C03.parse_terminates", "C03.parse_total", "C03.parse_from_total"]
+            "C03.run_terminates", "C03.parse_terminates", "C03.parse_total", "C03.templates_total", "C03.parse_from_total"]
 RULE = ("one case = one generated grammar (unbiased / mostly non-left-recursive / shaped / LL(1)-ish / hidden-recursion / DFS-bookkeeping "
-        "generators, names permuted), constructed with smart_factorization True and False, each followed by every token "
+        "generators, names permuted; 15 % grammars with ProdSequence / ListProds / MapProds keys incl. nullable members and items; "
+        "keys with an empty list of alternatives in recursive and non-recursive grammars; long inputs; two threads on one parser "
+        "object for every 40th accepted grammar), constructed with smart_factorization True and False, each followed by every token "
         "string up to the tier's length plus sampled sentences; the real constructor and parse run under a line-event "
         "budget (sys.settrace); non-trivial = at least one tree and one ParsingError, or the reference test says "
         "left-recursive; distinct by protocol text")
@@ -28,40 +30,55 @@ def impl(case):
 
 
 def oracle(case, replies):
-    ok = False
-    for line, rep in zip(case["lines"], replies):
-        op = line.split()[0]
+    first_ok = None
+    for op, line, rep, ctx in ll.walk(case, replies):
+        if ctx is None:
+            continue
+        smart = ctx["smart"]
         if op == "g":
-            spec, smart = ll.dec_g(line)
-            ok = rep.startswith("ok")
+            spec = ctx["spec"]
+            if ctx["ok"] and first_ok is None:
+                first_ok = ctx
             if rep == "err BudgetExceeded":
                 return "constructor-does-not-terminate: budget of %d line events exceeded (smart=%s)" % (BUDGET, smart)
             if ll.clean(spec):
-                ref = ll.left_rec(ll.user_grammar(spec))
+                ref = ll.left_rec(ctx["g"])
                 if ref and rep != "err GrammarIsRecursive":
                     return "missed-recursion: a symbol reaches itself without consuming a token, constructor says %r (smart=%s)" % (rep, smart)
                 if not ref and rep == "err GrammarIsRecursive":
                     return "false-alarm: no symbol reaches itself without consuming a token, GrammarIsRecursive raised (smart=%s)" % smart
-        elif op in ("p", "ps") and ok:
+        elif op in ("p", "pl", "ps") and ctx["ok"]:
             if rep == "err StackBoundExceeded":
                 return ("stack-grows-without-bound: the parse stack exceeds (|tokens|+1)*(number of symbols+3) frames "
-                        "on input %r" % ll.dec_p(line))
+                        "on input %s" % ll._short(ll.dec_p(line)))
             if rep == "err BudgetExceeded":
-                return "parse-does-not-terminate: budget of %d line events exceeded on input %r" % (PARSE_BUDGET, ll.dec_p(line))
+                return "parse-does-not-terminate: budget of %d line events exceeded on input %s" % (PARSE_BUDGET, ll._short(ll.dec_p(line)))
             if rep == "skipped-after-overrun":
                 continue
             if op == "ps" and rep == "err AssertionError":
                 continue                 # start_symbol_name is not a key of prods_map
             if not (rep.startswith("tree ") or rep == "err ParsingError"):
-                return "parse-raises: %s on input %r" % (rep[:60], ll.dec_p(line))
+                return "parse-raises: %s on input %s" % (rep[:60], ll._short(ll.dec_p(line)))
+    if case.get("meta", {}).get("threads") and first_ok is not None:
+        texts = [ll.dec_p(l) for l in case["lines"] if l.split()[0] == "p"][:40:5]
+        if texts:
+            msg = ll.thread_check(first_ok["spec"], first_ok["smart"], texts)
+            if msg:
+                return "threads: " + msg
     return None
 
 
 def gen_cases(rng, tier):
+    yield from ll.gen_long_cases(rng, (150, 700))
     if tier == "quick":
-        yield from ll.gen_ll_cases(rng, 1500, 3, sentences=12, hidden_share=0.25, dfs_share=0.2, diags=(), sent_maxlen=5)
+        for i, c in enumerate(ll.gen_ll_cases(rng, 1400, 3, sentences=12, hidden_share=0.22, dfs_share=0.18, tmpl_share=0.15,
+                                              diags=(), sent_maxlen=5)):
+            if i % 40 == 0 and c["meta"].get("ref") == "ok":
+                c["meta"]["threads"] = 1
+            yield c
+        return
     else:
-        yield from ll.gen_ll_cases(rng, 30000, 4, sentences=20, hidden_share=0.25, dfs_share=0.2, diags=(), sent_maxlen=5)
+        yield from ll.gen_ll_cases(rng, 30000, 4, sentences=20, hidden_share=0.22, dfs_share=0.18, tmpl_share=0.15, diags=(), sent_maxlen=5)
         yield from ll.tiny_grammars(rng, limit=20000, inputs_len=4)
 
 
